@@ -22,6 +22,7 @@ def fresh_energy(a):
 def standin(tier, seed):
     warnings.simplefilter("ignore")
     from quansino.mc.canonical import Canonical
+    from quansino.mc.criteria import CanonicalCriteria
     from quansino.mc.gcmc import GrandCanonical
     from quansino.mc.isobaric import Isobaric
     from quansino.moves.cell import CellMove
@@ -50,6 +51,10 @@ def standin(tier, seed):
         "GrandCanonical": lambda: (lambda a: (GrandCanonical(a, Atoms("Cu"), temperature=2500.0, chemical_potential=-0.3, number_of_exchange_particles=4, seed=seed, max_cycles=2),
                                               [("d", DisplacementMove(np.arange(4), Ball(0.2))), ("x", ExchangeMove(np.arange(4)))]))(base(magmoms=True)),
     }
+    # a composite displacement whose only eligible particle carries the label 0 (0 is an ordinary label): the trial moved atoms, so it
+    # must reach its criteria and be saved or reverted; otherwise the remembered reference describes another configuration
+    configs["Canonical(composite displacement, only particle labelled 0)"] = lambda: (lambda a: (
+        Canonical(a, temperature=1500.0, seed=seed, max_cycles=1), [("dd", DisplacementMove(np.array([0, -1, -1, -1]), Ball(0.3)) * 2, CanonicalCriteria())]))(base())
     class Never:                        # judges (one energy evaluation) and rejects
         def evaluate(self, ctx):
             ctx.atoms.get_potential_energy(); return False
